@@ -141,6 +141,28 @@ var faults = []fault{
 		f.Nodes[ni].UUID = "1f6d2e3b-8c4a-4d5e-9fab-2a3b4c5d6e7a"
 		return true
 	}, false},
+	// the flow is still in the store and still parses, but no longer validates: an exit of another node leads nowhere
+	{"flow-invalid", func(ga *genAssets, cs *canonSession) bool {
+		w := waitingOf(cs)
+		if w < 0 || cs.Runs[w].Flow < 0 || len(cs.Runs[w].Path) == 0 {
+			return false
+		}
+		f := ga.Flows[cs.Runs[w].Flow]
+		wn := cs.Runs[w].Path[len(cs.Runs[w].Path)-1].Node
+		for ni, n := range f.Nodes {
+			if ni != wn && len(n.Exits) > 0 {
+				n.Exits[0].BadDest = "2a7e3f4c-9d5b-4e6f-8a1b-3c4d5e6f7a8b"
+				f.invalid = true
+				return true
+			}
+		}
+		if wn < len(f.Nodes) && len(f.Nodes[wn].Exits) > 0 {
+			f.Nodes[wn].Exits[0].BadDest = "2a7e3f4c-9d5b-4e6f-8a1b-3c4d5e6f7a8b"
+			f.invalid = true
+			return true
+		}
+		return false
+	}, true},
 	{"parent-flow-deleted", func(ga *genAssets, cs *canonSession) bool {
 		w := waitingOf(cs)
 		if w < 0 || cs.Runs[w].Parent < 0 {
@@ -269,7 +291,7 @@ func runC10(c *Ctx) {
 					}
 					missing := map[int]bool{}
 					for fi, gf := range ga2.Flows {
-						if gf.deleted {
+						if gf.deleted || gf.invalid {
 							missing[fi] = true
 						}
 					}
